@@ -295,6 +295,13 @@ def check(P, R):
 
     # ---- d
     c09.check_shared_writes(P, R, 'C08.d', strict=True, same_for_all_threads_ok=True, skip_config_time=True, pure_memo_ok=True)
+    check_shared_slots(P, R, 'C08.d')
+    # the error objects kept in errors_map are single instances for all threads: the request path only reads them
+    from ..report import Sub as _Sub8
+    c09.check_error_objects_read_only(P, _Sub8(R, why='an error object shared by all threads is not written while one of them renders it'), 'C08.d')
+    # reads of application-wide lists that other requests may edit meanwhile go through a snapshot
+    from . import c03 as _c03
+    _c03.check_emit_snapshot(P, R, 'C08.d', 'what a request does (its hooks) does not depend on what another request does to the application at the same time')
 
     class _SubApply:
         def __init__(self, R_):
@@ -307,3 +314,53 @@ def check(P, R):
         def __getattr__(self, k):
             return getattr(self._R, k)
     c09.check_apply(P, _SubApply(R))
+
+
+def check_shared_slots(P, R, rid):
+    """The request and response objects of an application are shared by all its threads; only the attributes named in their @ts_props decorator are per thread.
+    A per-request method (the initialiser run for every request included) that stores into any *other* slot of the object - or into a container kept there - writes
+    state every thread sees."""
+    n = 0
+    for c in P.classes.values():
+        tsp = None
+        for d in getattr(c.node, 'decorator_list', []):
+            if isinstance(d, ast.Call) and dotted(d.func) == 'ts_props':
+                tsp = {a.value for a in d.args if isinstance(a, ast.Constant)} | {k.value.value for k in d.keywords if isinstance(k.value, ast.Constant)}
+        if tsp is None:
+            continue
+        # per-thread storage also includes what hangs off a per-thread attribute (self.environ[...], self.headers.dict via _ts)
+        for k in P.mro(c):
+            if not k.fq.startswith('ombott.'):
+                continue
+            for m in k.methods.values():
+                if m.name in ('__new__',) or m.name in c09.CONFIG_TIME_FUNCS or m.name in ('off',):
+                    continue
+                for st in walk_shallow(m.node):
+                    tgs = st.targets if isinstance(st, ast.Assign) else ([st.target] if isinstance(st, ast.AugAssign) else [])
+                    for t in tgs:
+                        base = t
+                        depth = 0
+                        while isinstance(base, (ast.Subscript, ast.Attribute)) and not (isinstance(base, ast.Attribute) and isinstance(base.value, ast.Name) and base.value.id == 'self'):
+                            base = base.value
+                            depth += 1
+                        if not (isinstance(base, ast.Attribute) and isinstance(base.value, ast.Name) and base.value.id == 'self'):
+                            continue
+                        attr = base.attr
+                        if attr in tsp or depth == 0:
+                            continue            # a per-thread property, or a plain rebinding of a slot (the thread-safety of those is the ts_props clause)
+                        if not isinstance(t, ast.Subscript) and not (isinstance(t, ast.Attribute) and depth >= 1):
+                            continue
+                        # containers reached through a per-thread attribute are per thread
+                        root_ts = attr in tsp
+                        if root_ts:
+                            continue
+                        # known per-thread views: HeaderDict keeps its dictionary in a threading.local of its own
+                        if attr == 'headers' and isinstance(t, ast.Attribute) and t.attr == 'dict':
+                            continue
+                        n += 1
+                        ok = attr.startswith('_') and attr.strip('_') in {x.strip('_') for x in tsp}
+                        R.ob(rid, m, st, ok, text=f'{k.name}.{m.name}: `{short(st)}`', detail='' if ok else
+                             f'`{short(st)}` writes into `self.{attr}`, which is not one of the per-thread attributes {sorted(tsp)} of {c.name}: the object is shared by all threads of '
+                             f'the application, so the value written for this request (bound to this thread\'s environ) is what every other thread finds there',
+                             why='a request never observes the state of another request', key_extra=f'shared-slot:{k.name}.{m.name}.{attr}')
+    R.ob(rid, 'ombott.common_helpers:ts_props', None, True, text=f'stores into non-thread-local slots of the shared request / response objects: {n} found', nontrivial=False)
